@@ -41,3 +41,8 @@ package core
 //@ func (*RuntimeConfig).PeerIDFromContext
 //@   trusted gRPC peer / TLS / metadata lookup (external libraries); reads the configuration only
 //@   ensures result1 == nil ==> result0 == peerid(0)
+
+// Kauri: handing the aggregate to the parent in the tree is logged on the ghost trace `sentup`.
+// (a network send: it serialises the signature and writes no replica state)
+//@ interface KauriSender.SendContributionToParent
+//@   emits sentup(view, qc)
